@@ -297,6 +297,8 @@ async fn open(i: usize, chan: Chan, table: &[u8], chunks: &[(u64, usize, usize)]
             let c = std::net::TcpStream::connect(l.local_addr().ok()?).ok()?;
             let (srv, _) = l.accept().ok()?;
             let _ = c.set_nodelay(true);
+            no_time_wait(&c);
+            no_time_wait(&srv);
             let peer = Rc::new(RefCell::new(c));
             for (t, _, len) in chunks.iter().copied() {
                 let (table, feed, peer) = (table.clone(), feed.clone(), peer.clone());
